@@ -89,6 +89,8 @@ def run_seg(env, sh):
         one.update(aad)
         if stream == 'aad':
             two.update(aad[:cut])
+            if sh.get('three'):
+                two.update(aad[cut:cut])        # an empty piece in the middle (possibly with a partial block cached)
             two.update(aad[cut:])
         else:
             two.update(aad)
@@ -231,7 +233,11 @@ def own_shapes(tier):
                 jobs.append(('seg', dict(mode=mode, total=total, cut=cut, stream=stream)))
                 if stream == 'msg' and (th or cut in (16, 17)):
                     jobs.append(('seg', dict(mode=mode, total=total, cut=cut, stream=stream, dec=True)))
-        jobs.append(('seg', dict(mode=mode, total=33, cut=16, stream='msg', three=True)))
+        for cut in (1, 16, 17) if not th else (0, 1, 15, 16, 17, 31, 32, 33):
+            for stream in ('aad', 'msg'):
+                jobs.append(('seg', dict(mode=mode, total=33, cut=cut, stream=stream, three=True)))
+                if stream == 'msg':
+                    jobs.append(('seg', dict(mode=mode, total=33, cut=cut, stream=stream, three=True, dec=True)))
     for mode in CLASSIC:
         total = 48 if mode == 'cbc' else 33
         cuts = range(0, total + 1) if th else (0, 1, 7, 8, 9, 16, 17, 32)
